@@ -333,10 +333,11 @@ def step (st : DState) (line : String) : DState × String :=
     match parseId 'V' u, parseOptNat sort with
     | some u, some sort =>
       if !(w.isUni u) then bad else
-      match R.basicRender w filterTable u (if rf == "repr" then rfRepr else if rf == "dup" then rfDup else if rf == "attr" then rfAttr w else rfTok) (sort.map sortKey) with
-      | .error e => (st, errLine e)
-      | .ok none => (st, "ok none")
-      | .ok (some str) => (st, "ok " ++ str.replace "\n" "|")
+      -- the state-threading form: every `neighbors(vert)` call of the render goes through the memo
+      match R.basicRenderS w filterTable u (if rf == "repr" then rfRepr else if rf == "dup" then rfDup else if rf == "attr" then rfAttr w else rfTok) (sort.map sortKey) with
+      | (w', .error e) => ({ st with w := w' }, errLine e)
+      | (w', .ok none) => ({ st with w := w' }, "ok none")
+      | (w', .ok (some str)) => ({ st with w := w' }, "ok " ++ str.replace "\n" "|")
     | _, _ => bad
   | ["puml", u, o] =>
     match parseId 'V' u, o.toNat? with
